@@ -52,7 +52,7 @@ Theorem C13_validations_as_documented :
   validations = ["lat_range is not None and len(lat_range) != 2"; "lon_range is not None and len(lon_range) != 2";
                  "elev_range is not None and len(elev_range) != 2"; "obs_range is not None and len(obs_range) != 2";
                  "dim_agg_length is not None and dim_agg_length <= 0"] /\
-  quantile_check = ["np.min(quantiles) < 0 or np.max(quantiles) > 1"].
+  quantile_check = ["len(quantiles) == 0 or np.min(quantiles) < 0 or np.max(quantiles) > 1"].
 Proof. split; reflexivity. Qed.
 
 (* ---- the argument loop, for ANY option table --------------------------------------------------- *)
